@@ -246,17 +246,20 @@ theorem consistent_step (env : Env) (hx : env.xml = Xml.full) (op : Op) (s : Sta
   obtain ⟨seg, ht, h⟩ := consistent_unless_protocol_step_fails env hx op s hs
   exact ⟨seg, ht, fun hall => h (fun e he => Or.inl (hall e he))⟩
 
-/-- **open / load_context / params access never disturb consistency**, whichever of their
-sub-operations fail (injected fault or NotOpened) and whatever they return. -/
+/-- **open / load_context / params access (reads and writes of other features) never disturb
+consistency**, whichever of their sub-operations fail (injected fault or NotOpened) and
+whatever they return. -/
 theorem consistent_kept_by_open_load_param (env : Env) (hx : env.xml = Xml.full) (op : Op)
-    (hop : op = .open ∨ op = .load ∨ op = .param) (s : State) (hs : Good s.dev) :
+    (hop : op = .open ∨ op = .load ∨ op = .param ∨ ∃ v, op = .gate v) (s : State)
+    (hs : Good s.dev) :
     Good (step env op s).2.dev := by
   have hP : OkP (fun _ => True) s.trace Good s := ⟨[], by simp, fun _ => hs⟩
   have key : OkP (fun _ => True) s.trace Good (step env op s).2 := by
-    rcases hop with rfl | rfl | rfl
+    rcases hop with rfl | rfl | rfl | ⟨v, rfl⟩
     · exact triple_snd (good_openCam env) hP
     · exact triple_snd (good_loadContext env hx) hP
     · exact triple_snd (good_paramAccess env) hP
+    · exact triple_snd (good_gateAccess env v) hP
   obtain ⟨seg, _, h⟩ := key
   exact h (fun _ _ => trivial)
 
@@ -512,6 +515,14 @@ example : (runOps envOk [.open, .load, .start 3] State.init).dev.chan = some (3,
 -- failed_start_leaves / call_effects_determine_visible_state on the AcquisitionStart fault
 example : (runOps (envFault 5) [.open, .load, .start 3] State.init).dev.visible =
     { ctrlOpen := true, strmOpen := true, enabled := true, lock := 1, acquiring := false } := by
+  decide
+
+-- params access that writes another feature (one that a description may let gate the access
+-- mode reported for TLParamsLocked) before start and while streaming: TLParamsLocked := 1 is
+-- still written before AcquisitionStart, and TLParamsLocked := 0 on stop
+example : (runOps envOk [.open, .load, .gate 1, .start 1, .gate 2, .stop] State.init).trace.drop 3 =
+    [⟨.gateSet 1, .ok⟩, ⟨.enable, .ok⟩, ⟨.lockSet 1, .ok⟩, ⟨.acqStart, .ok⟩, ⟨.loopStart, .ok⟩,
+     ⟨.gateSet 2, .ok⟩, ⟨.loopStop, .ok⟩, ⟨.acqStop, .ok⟩, ⟨.lockSet 0, .ok⟩, ⟨.disable, .ok⟩] := by
   decide
 
 end CamVerif.C16
